@@ -144,6 +144,34 @@ def sweep_cases(rng, tmpdir):
     sc3.add_through(1, 2)
     G.append(('vnacal-refused-add', pre3, [('cal add 0 double_reflect %s 3 12345 1 2' % M22b, ('EINVAL',), False), ('cal add 0 line %s 3 3 3 -7 1 2' % M22b, ('EINVAL',), False)], 'cal get_calibration_end 0',
               sc3.lines + ['cal solve 0', 'cal add_calibration 0 %s 0' % h('ok'), 'cal free 0']))
+    # rectangular calibrations: a measurement matrix larger than the calibration, or abbreviated to a row / column of a port the
+    # calibration has no detector / source for, is invalid (vnacal_new(3)); refused with EINVAL, and the proper list still solves
+    for typ4, r4, c4 in (('T8', 1, 2), ('U8', 2, 1), ('UE14', 2, 1), ('T8', 2, 3), ('U8', 3, 2)):
+        from props import c02
+        sc4 = c02.Sc(rng, typ4, r4, c4, 2, fvec=[f1, f2]).begin()
+        pre4 = list(sc4.lines)
+        sc4.lines = []
+        M11 = 'm 2 1 1 %s %s' % (z(0.1), z(0.2))
+        M22c = 'm 2 2 2 ' + ' '.join(z(0.1 * k) for k in range(8))
+        M33 = 'm 2 3 3 ' + ' '.join(z(0.01 * k) for k in range(18))
+        M44 = 'm 2 4 4 ' + ' '.join(z(0.01 * k) for k in range(32))
+        if max(r4, c4) == 2:
+            for port in (1, 2):
+                for code in (calsim.SHORT, calsim.OPEN, calsim.MATCH):
+                    sc4.add_reflect(port, code)
+            sc4.add_through(1, 2)
+            for _ in range(2):
+                S2 = [[calsim.rc(rng, 0.4), calsim.rc(rng, 0.5) + 0.4], [calsim.rc(rng, 0.5) + 0.4, calsim.rc(rng, 0.4)]]
+                sc4.add_line_handles(1, 2, tuple(sc4.scalar(S2[a][b]) for a in (0, 1) for b in (0, 1)), [S2, S2])
+            # larger than the 1x2 / 2x1 matrix of the calibration
+            probes4 = [('cal add 0 through %s 1 2' % M22c, ('EINVAL',), False), ('cal add 0 double_reflect %s 2 1 1 2' % M22c, ('EINVAL',), False),
+                       ('cal add 0 line %s 0 1 1 0 1 2' % M33, ('EINVAL',), False), ('cal add 0 single_reflect %s 2 1' % M22c, ('EINVAL',), False)]
+        else:
+            sc4.solt()
+            # port 3 has no row (2x3) / no column (3x2): the one cell, and the 2x2 block of ports (1,3) / (2,3), cannot be placed
+            probes4 = [('cal add 0 single_reflect %s 2 3' % M11, ('EINVAL',), False), ('cal add 0 through %s 1 2' % M44, ('EINVAL',), False)]
+        G.append(('vnacal-rect-add-%s-%dx%d' % (typ4, r4, c4), pre4, probes4, 'cal get_calibration_end 0',
+                  sc4.lines + ['cal solve 0', 'cal add_calibration 0 %s 0' % h('ok'), 'cal free 0']))
     return G, {('vnacal', 0): (sc, dut), ('vnacal-solve', 2): (sc2, dut2)}
 
 
